@@ -231,8 +231,10 @@ class Recorder:
             return vals.reshape(shape).copy()
 
         def choice_(a, size=None, replace=True, p=None):
-            if not isinstance(a, (int, np.integer)) or p is not None or not replace or size is None:
-                return rec._orig["choice"](a, size=size, replace=replace, p=p)
+            if not isinstance(a, (int, np.integer)) or p is not None or not replace or size is None or not isinstance(size, (int, np.integer)):
+                out = rec._orig["choice"](a, size=size, replace=replace, p=p)
+                rec.events.append(("other", "choice", int(np.size(out))))
+                return out
             n, k = int(a), int(size)
             if rec.script is not None:
                 e = rec._next("choice")
@@ -247,6 +249,12 @@ class Recorder:
             return vals.copy()
 
         def randint_(low, high=None, size=None, dtype=int):
+            if np.ndim(low) or np.ndim(high) or not (size is None or isinstance(size, (int, np.integer))):
+                # a call shape the model has no event for (array-valued bounds, tuple sizes): the code runs on numpy's own generator and
+                # the record only says that it happened, so the correspondence fails on it and the property oracle judges the outcome
+                out = rec._orig["randint"](low, high, size=size, dtype=dtype)
+                rec.events.append(("other", "randint", int(np.size(out))))
+                return out
             lo, hi = (0, int(low)) if high is None else (int(low), int(high))
             sz = None if size is None else int(size)
             if rec.script is not None:
@@ -265,7 +273,9 @@ class Recorder:
 
         def permutation_(x):
             if not isinstance(x, (int, np.integer)):
-                return rec._orig["permutation"](x)
+                out = rec._orig["permutation"](x)
+                rec.events.append(("other", "permutation", int(np.size(out))))
+                return out
             n = int(x)
             if rec.script is not None:
                 e = rec._next("perm")
@@ -676,6 +686,26 @@ class Check:
     def on_exception(self, case, obs):
         return "implementation raised " + obs["exception"]
 
+    def safe_explain(self, case, obs):
+        try:
+            return self.explain(case, obs)
+        except Exception as e:
+            return "the model term for this observation cannot be written: %r" % (e,)
+
+    def known_in_search(self, case, obs, msg):
+        """known() for a case met during the search: the model's verdicts on it (self.aux) have to be computed first, because a listed
+        finding explains a failure only where the model predicts it"""
+        saved = (getattr(self, "aux", None), getattr(self, "cur", None), list(getattr(self, "oracle_crashes", [])), list(getattr(self, "term_errors", [])))
+        try:
+            self.judge([(case, obs)])
+            self.cur = 0
+            sig = self.known(case, obs, msg)
+            return sig if sig and sig in {k["signature"] for k in known_findings(self.ID)} else None
+        except Exception:
+            return None
+        finally:
+            self.aux, self.cur, self.oracle_crashes, self.term_errors = saved
+
     def main(self, replay=None):
         pid = self.ID
         out_lines = []
@@ -764,7 +794,7 @@ class Check:
                 violations.append((self.write_replay("oracle-search", c, o, msg, {"broken": broken}), ""))
         if broken and not violations:
             first = results[unexplained_corr[0]] if unexplained_corr else (None, None)
-            extra = {"broken": broken, "theorems": thms, "model_output": self.explain(first[0], first[1]) if first[0] is not None else None}
+            extra = {"broken": broken, "theorems": thms, "model_output": self.safe_explain(first[0], first[1]) if first[0] is not None else None}
             violations.append((self.write_replay("no-failing-input", first[0], first[1], "; ".join(b[:300] for b in broken), extra), " no-failing-input-found"))
         # 4. evidence
         nontriv = set()
@@ -846,7 +876,7 @@ class Check:
                     msg = self.on_exception(c, o) if "exception" in o else self.oracle(c, o)
                 except Exception as e:
                     msg = None
-                if msg and not self.known(c, o, msg):
+                if msg and not self.known_in_search(c, o, msg):
                     c2, o2 = self.shrink(c, o, msg)
                     return ((c2, o2, msg), None, n)
                 if time.time() - t0 > budget:
